@@ -37,7 +37,7 @@ def oneline(text):
 
 
 def ev(**k):
-    e = dict(ev="-", comp="-", cls="-", m1="-", m2="-", point="-", ok=1)
+    e = dict(ev="-", comp="-", cls="-", m1="-", m2="-", point="-", ok=1, sh=0)
     e.update(k)
     return e
 
@@ -109,7 +109,7 @@ def pair_jobs(obl, p, seed):
         for cls in o["classes"]:
             for m1, m2 in o["pairs"]:
                 jobs.append({"comp": c, "class": cls, "m1": m1, "m2": m2, "blocking": o["blocking"],
-                             "rounds": p["rounds"], "iters": p["iters"]})
+                             "rounds": p["rounds"], "iters": p["iters"], "shapes": o["shapes"]})
     random.Random(seed).shuffle(jobs)
     for i, j in enumerate(jobs):
         j["n"] = i
@@ -322,7 +322,8 @@ def body(rep, tier, seed, p, late, lap):
         if x is None:
             continue
         ks = sorted(k for k in x["keys"] if k in confirmed)
-        events.append(ev(ev="pair", comp=j["comp"], cls=j["class"], m1=j["m1"], m2=j["m2"], ok=0 if ks else 1))
+        events.append(ev(ev="pair", comp=j["comp"], cls=j["class"], m1=j["m1"], m2=j["m2"], ok=0 if ks else 1,
+                         sh=(x["end"] or {}).get("shapes", 0)))
         origin.append(dict(kind="pair", job=j, keys=ks))
         if ks and (j["m1"] in obl[j["comp"]]["unjudged"] or j["m2"] in obl[j["comp"]]["unjudged"]):
             for k in ks:
